@@ -1,195 +1,37 @@
 (* Properties/C13.v — StopWatch obeys its state machine under every call sequence.
-   Property theorems only; each is closed by [exact] of a lemma of Proofs/C13.v.
+   Property theorems only; each is closed by [exact] of a lemma of Proofs/C13*.v.
 
-   Reading guide.  [clk : nat -> Z] is the clock: the n-th call of timeutils.now() returns [clk n].
-   A configuration is [(w, t)]: the watch's fields and the number of now() calls made so far.
-   [reachable clk (w, t)]: some history (any list of calls of any length, Model/C13.v [op]) run on
-   a freshly constructed StopWatch(duration) ends in (w, t).  So "for all reachable (w, t) and
-   every next call" is "for every call of every history"; [trace] lists the outcomes of a history.
-   Every method returns the configuration at the end of the call, also when it raises.
-   The methods are the hand model of Model/C13.v, proved equal to the statement-level
-   translation of the source, Gen/C13_StopWatch.v, by the [gen_*_equiv] lemmas of Proofs/C13.v
-   (obligations of this property).  [monotone_uptob clk n = true]: the first n readings never
-   decrease.  Non-vacuity instances and negative controls: Proofs/C13.v section C. *)
+   Reading guide.  The whole development is generic in the number type of clock readings: a carrier T with
+   the operations N : num T the source uses (0.0, -, >, >=; max/min defined from > as CPython does).
+   [clk : nat -> T] is the clock: the n-th call of timeutils.now() returns [clk n].  A configuration is
+   [(w, t)]: the watch's fields and the number of now() calls made so far.  [reachable N clk (w, t)]: some
+   history (any list of calls of any length, Model/C13.v [op]) run on a freshly constructed
+   StopWatch(duration) ends in (w, t).  So "for all reachable (w, t) and every next call" is "for every call
+   of every history"; [trace] lists the outcomes of a history.  Every method returns the configuration at the
+   end of the call, also when it raises.  The methods are the hand model of Model/C13.v, proved equal — for
+   every T and N — to the statement-level translation of the source, Gen/C13_StopWatch.v, by the
+   [gen_*_equiv] lemmas of Proofs/C13.v (obligations of this property).
+
+   Part 1: every number type, no premise (the state machine).  Part 2: number types whose comparisons satisfy
+   [comp_facts] / whose subtraction satisfies [clock_facts] on good readings (Z and binary64 do).  Part 3: every
+   totally ordered abelian group (the exact clauses).  Part 4: T := Z, corollaries of Part 3 in Z notation
+   (the instance the extraction / dyadic clocks use).  Part 5: T := binary64 (Base/PyFloat.v): what holds on a
+   real float clock, and which clauses hold only "up to float subtraction".
+   Non-vacuity instances and negative controls: Proofs/C13_Z.v, Proofs/C13_Float.v. *)
 From Coq Require Import ZArith List Bool Sorting.Sorted.
-Require Import OV.Base.Bytes OV.Base.Py OV.Base.C13_Types OV.Gen.C13_StopWatch OV.Model.C13 OV.Proofs.C13.
+Require Import OV.Base.Bytes OV.Base.Py OV.Base.PyFloat OV.Base.C13_Types OV.Gen.C13_StopWatch.
+Require Import OV.Model.C13 OV.Model.C13_Order OV.Model.C13_Z OV.Model.C13_Float.
+Require Import OV.Proofs.C13 OV.Proofs.C13_Order OV.Proofs.C13_Z OV.Proofs.C13_Float.
 Import ListNotations.
-Open Scope Z_scope.
 
-(* elapsed time is never negative — any watch, any clock (also one that runs backwards), any maximum *)
-Theorem C13_elapsed_nonneg : forall clk w t maximum c e,
-  elapsed clk w t maximum = (c, Ok e) -> 0 <= e.
-Proof. exact elapsed_nonneg. Qed.
-Print Assumptions C13_elapsed_nonneg.
-
-(* every number returned by any call (elapsed, leftover) of any history is non-negative *)
-Theorem C13_history_numbers_nonneg : forall clk duration w0 ops,
-  init duration = Ok w0 ->
-  Forall (fun cr => forall z, snd cr = Ok (VNum z) -> 0 <= z) (trace clk ops w0 0%nat).
-Proof. exact history_numbers_nonneg. Qed.
-Print Assumptions C13_history_numbers_nonneg.
-
-(* while running, elapsed reads the clock once and returns the distance from _started_at to that
-   reading, clamped at 0 and at the maximum; under a monotonic clock it is exactly now - started_at.
-   (_started_at is the reading taken by the last (re)start: C13_restart_effect, C13_started_at_frame) *)
-Theorem C13_elapsed_running : forall clk w t,
-  reachable clk (w, t) -> w_state w = SStarted ->
-  exists s, w_started w = Some s /\
-    (forall m, elapsed clk w t m = ((w, S t), Ok (clamp_max m (Z.max 0 (clk t - s))))) /\
-    (monotone_uptob clk (S t) = true -> 0 <= clk t - s /\ elapsed clk w t None = ((w, S t), Ok (clk t - s))).
-Proof. exact elapsed_running. Qed.
-Print Assumptions C13_elapsed_running.
-
-(* while stopped, elapsed does not read the clock and returns the distance from _started_at to the
-   stop instant _stopped_at (the reading taken by the stop: C13_stop_effect, C13_stopped_at_frame) *)
-Theorem C13_elapsed_stopped : forall clk w t,
-  reachable clk (w, t) -> w_state w = SStopped ->
-  exists s p, w_started w = Some s /\ w_stopped w = Some p /\
-    (forall m, elapsed clk w t m = ((w, t), Ok (clamp_max m (Z.max 0 (p - s))))) /\
-    (monotone_uptob clk t = true -> 0 <= p - s /\ elapsed clk w t None = ((w, t), Ok (p - s))).
-Proof. exact elapsed_stopped. Qed.
-Print Assumptions C13_elapsed_stopped.
-
-(* elapsed(maximum) is elapsed() cut at the maximum: it never exceeds a non-negative maximum
-   (a negative maximum is answered by 0: ex_negative_maximum) *)
-Theorem C13_elapsed_max : forall clk w t m c e,
-  elapsed clk w t (Some m) = (c, Ok e) ->
-  exists e0, elapsed clk w t None = (c, Ok e0) /\
-             e = (if e0 <=? m then e0 else Z.max 0 m) /\ e <= Z.max 0 m /\ (0 <= m -> e <= m).
-Proof. exact elapsed_max. Qed.
-Print Assumptions C13_elapsed_max.
-
-(* ... and the literal statement for EVERY maximum is false (zone: maximum < 0, where it contradicts
-   C13_elapsed_nonneg; the implementation answers 0) *)
-Theorem C13_elapsed_max_literal_refuted : ~ C13_elapsed_max_full_statement.
-Proof. exact elapsed_max_literal_refuted. Qed.
-Print Assumptions C13_elapsed_max_literal_refuted.
-
-(* leftover = max(0, duration - elapsed) with elapsed taken at the same clock reading; without a
-   duration: None when return_none, RuntimeError (watch and clock untouched) otherwise *)
-Theorem C13_leftover_spec : forall clk w t return_none,
-  w_state w = SStarted ->
-  match w_duration w with
-  | Some d => forall c e, elapsed clk w t None = (c, Ok e) ->
-                          leftover clk w t return_none = (c, Ok (Some (Z.max 0 (d - e))))
-  | None => leftover clk w t return_none = ((w, t), if return_none then Ok None else Exn RuntimeError)
-  end.
-Proof. exact leftover_spec. Qed.
-Print Assumptions C13_leftover_spec.
-
-(* expired <-> elapsed > duration (elapsed taken at the same clock reading); never without a duration *)
-Theorem C13_expired_spec : forall clk w t,
-  w_state w <> SNone ->
-  match w_duration w with
-  | Some d => forall c e, elapsed clk w t None = (c, Ok e) ->
-                          exists b, expired clk w t = (c, Ok b) /\ (b = true <-> e > d)
-  | None => expired clk w t = ((w, t), Ok false)
-  end.
-Proof. exact expired_spec. Qed.
-Print Assumptions C13_expired_spec.
-
-(* a split records the current elapsed time, appends itself to the splits and is returned; its length
-   is the clamped difference to the previous split (the elapsed time itself for the first one) *)
-Theorem C13_split_records : forall clk w t c sp,
-  split_ clk w t = (c, Ok sp) ->
-  exists e, elapsed clk w t None = ((w, snd c), Ok e) /\ sp_elapsed sp = e /\
-            sp_length sp = match last_opt (w_splits w) with
-                           | Some l => Z.max 0 (e - sp_elapsed l) | None => e end /\
-            fst c = set_splits w (w_splits w ++ [sp]).
-Proof. exact split_records. Qed.
-Print Assumptions C13_split_records.
-
-(* under a monotonic clock the splits of every reachable watch have non-decreasing elapsed values and
-   lengths equal to the successive differences (the first one counted from 0) *)
-Theorem C13_splits_nondecreasing_lengths_are_differences : forall clk w t,
-  reachable clk (w, t) -> monotone_uptob clk t = true ->
-  StronglySorted Z.le (map sp_elapsed (w_splits w)) /\ diffs_from 0 (w_splits w).
-Proof. exact splits_monotone. Qed.
-Print Assumptions C13_splits_nondecreasing_lengths_are_differences.
-
-(* on any clock (also a backwards one) the lengths are the clamped differences and nothing is negative *)
-Theorem C13_splits_any_clock : forall clk w t,
-  reachable clk (w, t) ->
-  clamped_diffs_from None (w_splits w) /\ Forall (fun x => 0 <= sp_elapsed x /\ 0 <= sp_length x) (w_splits w).
-Proof. exact splits_clamped. Qed.
-Print Assumptions C13_splits_any_clock.
-
-(* the splits change only by a split (appended) and by a (re)start (cleared) *)
-Theorem C13_splits_frame : forall clk o w t,
-  w_splits (fst (fst (step clk o w t))) =
-  if effective_restart o w then []
-  else match o, snd (step clk o w t) with
-       | OSplit, Ok (VSplit sp) => w_splits w ++ [sp]
-       | _, _ => w_splits w
-       end.
-Proof. exact splits_frame. Qed.
-Print Assumptions C13_splits_frame.
-
-(* a (re)start — start/__enter__ on a watch that is not running, restart always — leaves a running watch
-   with no splits whose _started_at is the last clock reading the call took *)
-Theorem C13_restart_effect : forall clk o w t,
-  effective_restart o w = true ->
-  exists t', step clk o w t = ((mkWatch SStarted (Some (clk t')) None [] (w_duration w), S t'), Ok VSelf) /\ (t <= t')%nat.
-Proof. exact restart_effect. Qed.
-Print Assumptions C13_restart_effect.
-
-(* no other call touches _started_at *)
-Theorem C13_started_at_frame : forall clk o w t,
-  effective_restart o w = false -> w_started (fst (fst (step clk o w t))) = w_started w.
-Proof. exact started_at_frame. Qed.
-Print Assumptions C13_started_at_frame.
-
-(* stop/__exit__ on a running watch records the stop instant and changes nothing else *)
-Theorem C13_stop_effect : forall clk o w t,
-  effective_stop o w = true ->
-  exists v, step clk o w t =
-            ((mkWatch SStopped (w_started w) (Some (clk t)) (w_splits w) (w_duration w), S t), Ok v).
-Proof. exact stop_effect. Qed.
-Print Assumptions C13_stop_effect.
-
-Theorem C13_stopped_at_frame : forall clk o w t,
-  effective_stop o w = false -> effective_restart o w = false ->
-  w_stopped (fst (fst (step clk o w t))) = w_stopped w.
-Proof. exact stopped_at_frame. Qed.
-Print Assumptions C13_stopped_at_frame.
-
-(* the state machine: the state after any call *)
-Theorem C13_state_transitions : forall clk o w t,
-  w_state (fst (fst (step clk o w t))) =
-  if effective_restart o w then SStarted
-  else if effective_stop o w then SStopped
-  else match o, w_state w with OResume, SStopped => SStarted | _, s => s end.
-Proof. exact state_transitions. Qed.
-Print Assumptions C13_state_transitions.
-
-(* the context-manager protocol.  __exit__, called with (None, None, None) or with the exception triple of a with-body
-   that raised (exc = true), behaves the same: it never raises, returns None — so the body's exception propagates —,
-   stops a running watch at the reading it takes and leaves a fresh or stopped watch as it is *)
-Theorem C13_exit_spec : forall clk exc w t,
-  step clk (OExit exc) w t =
-  (match w_state w with
-   | SStarted => (mkWatch SStopped (w_started w) (Some (clk t)) (w_splits w) (w_duration w), S t)
-   | _ => (w, t)
-   end, Ok VNone).
-Proof. exact exit_spec. Qed.
-Print Assumptions C13_exit_spec.
-
-(* after  with sw: body [raise X]  (= __enter__(); body; __exit__(...)), for ANY body and whether or not it raised, the
-   watch is STOPPED; if the body left it running, _stopped_at is the reading taken by __exit__ (one reading); if the
-   body had stopped it, __exit__ changes nothing *)
-Theorem C13_with_block_stops : forall clk body exc w0 t0,
-  let c1 := final clk (OEnter :: body) w0 t0 in
-  let c2 := final clk (with_block body exc) w0 t0 in
-  w_state (fst c2) = SStopped /\
-  (w_state (fst c1) = SStarted -> w_stopped (fst c2) = Some (clk (snd c1)) /\ snd c2 = S (snd c1)) /\
-  (w_state (fst c1) = SStopped -> c2 = c1).
-Proof. exact with_block_stops. Qed.
-Print Assumptions C13_with_block_stops.
+(* ======================================================================================================= *)
+(* Part 1 — every number type T, every operations N : num T, every clock: the state machine                 *)
+(* ======================================================================================================= *)
 
 (* the legality table, methods x states (rows: fresh, running, stopped; columns: start stop resume restart
    split elapsed leftover expired has_started has_stopped splits __enter__ __exit__(None, None, None)
    __exit__(exception triple)) *)
-Theorem C13_legality_table : forall w m rn,
+Theorem C13_legality_table : forall T (w : watch T) m rn,
   map (fun o => legal o w) (all_ops m rn) =
   match w_state w with
   | SNone =>    [true; false; false; true; false; false; false; false; true; true; true; true; true; true]
@@ -202,37 +44,209 @@ Proof. exact legality_table. Qed.
 Print Assumptions C13_legality_table.
 
 (* every illegal call raises RuntimeError and leaves the watch — and the clock — as it was (any watch) *)
-Theorem C13_illegal_call_raises_and_preserves : forall clk o w t,
-  legal o w = false -> step clk o w t = ((w, t), Exn RuntimeError).
+Theorem C13_illegal_call_raises_and_preserves : forall T (N : num T) clk o w t,
+  legal o w = false -> step N clk o w t = ((w, t), Exn RuntimeError).
 Proof. exact illegal_raises. Qed.
 Print Assumptions C13_illegal_call_raises_and_preserves.
 
 (* every legal call of every history returns a value *)
-Theorem C13_legal_call_returns : forall clk o w t,
-  reachable clk (w, t) -> legal o w = true -> exists c v, step clk o w t = (c, Ok v).
+Theorem C13_legal_call_returns : forall T (N : num T) clk o w t,
+  reachable N clk (w, t) -> legal o w = true -> exists c v, step N clk o w t = (c, Ok v).
 Proof. exact legal_returns. Qed.
 Print Assumptions C13_legal_call_returns.
 
 (* so the only exception any call of any history raises is RuntimeError, exactly for the illegal calls *)
-Theorem C13_only_runtime_errors : forall clk o w t c e,
-  reachable clk (w, t) -> step clk o w t = (c, Exn e) -> e = RuntimeError /\ c = (w, t) /\ legal o w = false.
+Theorem C13_only_runtime_errors : forall T (N : num T) clk o w t c e,
+  reachable N clk (w, t) -> step N clk o w t = (c, Exn e) -> e = RuntimeError /\ c = (w, t) /\ legal o w = false.
 Proof. exact only_runtime_errors. Qed.
 Print Assumptions C13_only_runtime_errors.
 
-Theorem C13_history_only_runtime_errors : forall clk duration w0 ops,
-  init duration = Ok w0 ->
-  Forall (fun cr => forall e, snd cr = Exn e -> e = RuntimeError) (trace clk ops w0 0%nat).
+Theorem C13_history_only_runtime_errors : forall T (N : num T) clk duration w0 ops,
+  init N duration = Ok w0 ->
+  Forall (fun cr => forall e, snd cr = Exn e -> e = RuntimeError) (trace N clk ops w0 0%nat).
 Proof. exact history_only_runtime_errors. Qed.
 Print Assumptions C13_history_only_runtime_errors.
 
+(* the state machine: the state after any call *)
+Theorem C13_state_transitions : forall T (N : num T) clk o w t,
+  w_state (fst (fst (step N clk o w t))) =
+  if effective_restart o w then SStarted
+  else if effective_stop o w then SStopped
+  else match o, w_state w with OResume, SStopped => SStarted | _, s => s end.
+Proof. exact state_transitions. Qed.
+Print Assumptions C13_state_transitions.
+
+(* a (re)start — start/__enter__ on a watch that is not running, restart always — leaves a running watch
+   with no splits whose _started_at is the last clock reading the call took *)
+Theorem C13_restart_effect : forall T (N : num T) clk o w t,
+  effective_restart o w = true ->
+  exists t', step N clk o w t = ((mkWatch SStarted (Some (clk t')) None [] (w_duration w), S t'), Ok VSelf) /\ (t <= t')%nat.
+Proof. exact restart_effect. Qed.
+Print Assumptions C13_restart_effect.
+
+(* no other call touches _started_at *)
+Theorem C13_started_at_frame : forall T (N : num T) clk o w t,
+  effective_restart o w = false -> w_started (fst (fst (step N clk o w t))) = w_started w.
+Proof. exact started_at_frame. Qed.
+Print Assumptions C13_started_at_frame.
+
+(* stop/__exit__ on a running watch records the stop instant and changes nothing else *)
+Theorem C13_stop_effect : forall T (N : num T) clk o w t,
+  effective_stop o w = true ->
+  exists v, step N clk o w t =
+            ((mkWatch SStopped (w_started w) (Some (clk t)) (w_splits w) (w_duration w), S t), Ok v).
+Proof. exact stop_effect. Qed.
+Print Assumptions C13_stop_effect.
+
+Theorem C13_stopped_at_frame : forall T (N : num T) clk o w t,
+  effective_stop o w = false -> effective_restart o w = false ->
+  w_stopped (fst (fst (step N clk o w t))) = w_stopped w.
+Proof. exact stopped_at_frame. Qed.
+Print Assumptions C13_stopped_at_frame.
+
+(* history-wise: _started_at is the last clock reading taken by the last (re)start of the history
+   (ops1, then the (re)start o, then ops2 without any (re)start) — the "last (re)start" of the property *)
+Theorem C13_started_at_is_last_restart : forall T (N : num T) clk ops1 o ops2 w0 t0,
+  let c1 := final N clk ops1 w0 t0 in
+  effective_restart o (fst c1) = true ->
+  let c2 := fst (step N clk o (fst c1) (snd c1)) in
+  restarts_in N clk ops2 (fst c2) (snd c2) = false ->
+  w_started (fst (final N clk (ops1 ++ o :: ops2) w0 t0)) = Some (clk (snd c2 - 1)%nat) /\ (snd c1 < snd c2)%nat.
+Proof. exact started_at_is_last_restart. Qed.
+Print Assumptions C13_started_at_is_last_restart.
+
+(* history-wise: _stopped_at is the clock reading taken by the last stop of the history — the "stop instant" *)
+Theorem C13_stopped_at_is_last_stop : forall T (N : num T) clk ops1 o ops2 w0 t0,
+  let c1 := final N clk ops1 w0 t0 in
+  effective_stop o (fst c1) = true ->
+  let c2 := fst (step N clk o (fst c1) (snd c1)) in
+  stops_in N clk ops2 (fst c2) (snd c2) = false ->
+  w_stopped (fst (final N clk (ops1 ++ o :: ops2) w0 t0)) = Some (clk (snd c1)).
+Proof. exact stopped_at_is_last_stop. Qed.
+Print Assumptions C13_stopped_at_is_last_stop.
+
+(* what elapsed computes while running: one clock reading, the watch unchanged, the value
+   _delta_seconds(started_at, now) = max(0.0, now - started_at) cut at the maximum; started_at is an earlier reading *)
+Theorem C13_elapsed_running_computes : forall T (N : num T) clk w t,
+  reachable N clk (w, t) -> w_state w = SStarted ->
+  exists i, (i < t)%nat /\ w_started w = Some (clk i) /\
+    forall m, elapsed N clk w t m = ((w, S t), Ok (clamp_max N m (delta N (clk i) (clk t)))).
+Proof. exact elapsed_running. Qed.
+Print Assumptions C13_elapsed_running_computes.
+
+(* ... and while stopped: no clock reading, max(0.0, stopped_at - started_at) *)
+Theorem C13_elapsed_stopped_computes : forall T (N : num T) clk w t,
+  reachable N clk (w, t) -> w_state w = SStopped ->
+  exists i j, (i < j < t)%nat /\ w_started w = Some (clk i) /\ w_stopped w = Some (clk j) /\
+    forall m, elapsed N clk w t m = ((w, t), Ok (clamp_max N m (delta N (clk i) (clk j)))).
+Proof. exact elapsed_stopped. Qed.
+Print Assumptions C13_elapsed_stopped_computes.
+
+(* every elapsed value is 0.0 or a value > 0.0 (for any clock, any maximum, any watch) *)
+Theorem C13_elapsed_zero_or_positive : forall T (N : num T) clk w t m c e,
+  elapsed N clk w t m = (c, Ok e) -> e = n_zero N \/ n_gtb N e (n_zero N) = true.
+Proof. exact elapsed_pos0. Qed.
+Print Assumptions C13_elapsed_zero_or_positive.
+
+(* ... and so is every number returned by any call (elapsed, leftover) of any history *)
+Theorem C13_history_numbers_zero_or_positive : forall T (N : num T) clk duration w0 ops,
+  init N duration = Ok w0 ->
+  Forall (fun cr => forall z, snd cr = Ok (VNum z) -> z = n_zero N \/ n_gtb N z (n_zero N) = true) (trace N clk ops w0 0%nat).
+Proof. exact history_numbers_pos0. Qed.
+Print Assumptions C13_history_numbers_zero_or_positive.
+
+(* elapsed(maximum) is elapsed() at the same reading, replaced by max(0.0, maximum) when it is > maximum *)
+Theorem C13_elapsed_max_computes : forall T (N : num T) clk w t m c e,
+  elapsed N clk w t (Some m) = (c, Ok e) ->
+  exists e0, elapsed N clk w t None = (c, Ok e0) /\ e = clamp_max N (Some m) e0.
+Proof. exact elapsed_max. Qed.
+Print Assumptions C13_elapsed_max_computes.
+
+(* leftover = max(0.0, duration - elapsed) with elapsed taken at the same clock reading; without a
+   duration: None when return_none, RuntimeError (watch and clock untouched) otherwise *)
+Theorem C13_leftover_computes : forall T (N : num T) clk w t return_none,
+  w_state w = SStarted ->
+  match w_duration w with
+  | Some d => forall c e, elapsed N clk w t None = (c, Ok e) ->
+                          leftover N clk w t return_none = (c, Ok (Some (max0 N (n_sub N d e))))
+  | None => leftover N clk w t return_none = ((w, t), if return_none then Ok None else Exn RuntimeError)
+  end.
+Proof. exact leftover_spec. Qed.
+Print Assumptions C13_leftover_computes.
+
+(* expired = (elapsed > duration), elapsed taken at the same clock reading; never without a duration *)
+Theorem C13_expired_computes : forall T (N : num T) clk w t,
+  w_state w <> SNone ->
+  match w_duration w with
+  | Some d => forall c e, elapsed N clk w t None = (c, Ok e) -> expired N clk w t = (c, Ok (n_gtb N e d))
+  | None => expired N clk w t = ((w, t), Ok false)
+  end.
+Proof. exact expired_spec. Qed.
+Print Assumptions C13_expired_computes.
+
+(* a split records the current elapsed time, appends itself to the splits and is returned; its length is
+   _delta_seconds(previous split's elapsed, elapsed) (the elapsed time itself for the first one) *)
+Theorem C13_split_records_computes : forall T (N : num T) clk w t c sp,
+  split_ N clk w t = (c, Ok sp) ->
+  exists e, elapsed N clk w t None = ((w, snd c), Ok e) /\ sp_elapsed sp = e /\
+            sp_length sp = match last_opt (w_splits w) with
+                           | Some l => delta N (sp_elapsed l) e | None => e end /\
+            fst c = set_splits w (w_splits w ++ [sp]).
+Proof. exact split_records. Qed.
+Print Assumptions C13_split_records_computes.
+
+(* the splits change only by a split (appended) and by a (re)start (cleared) *)
+Theorem C13_splits_frame : forall T (N : num T) clk o w t,
+  w_splits (fst (fst (step N clk o w t))) =
+  if effective_restart o w then []
+  else match o, snd (step N clk o w t) with
+       | OSplit, Ok (VSplit sp) => w_splits w ++ [sp]
+       | _, _ => w_splits w
+       end.
+Proof. exact splits_frame. Qed.
+Print Assumptions C13_splits_frame.
+
+(* on any clock the lengths of the splits of a reachable watch are the clamped successive differences and
+   every elapsed value / length is 0.0 or > 0.0 *)
+Theorem C13_splits_any_clock_computes : forall T (N : num T) clk w t,
+  reachable N clk (w, t) ->
+  clamped_diffs_from N None (w_splits w) /\
+  Forall (fun x => pos0 T N (sp_elapsed x) /\ pos0 T N (sp_length x)) (w_splits w).
+Proof. exact splits_clamped. Qed.
+Print Assumptions C13_splits_any_clock_computes.
+
+(* the context-manager protocol.  __exit__, called with (None, None, None) or with the exception triple of a with-body
+   that raised (exc = true), behaves the same: it never raises, returns None — so the body's exception propagates —,
+   stops a running watch at the reading it takes and leaves a fresh or stopped watch as it is *)
+Theorem C13_exit_spec : forall T (N : num T) clk exc w t,
+  step N clk (OExit exc) w t =
+  (match w_state w with
+   | SStarted => (mkWatch SStopped (w_started w) (Some (clk t)) (w_splits w) (w_duration w), S t)
+   | _ => (w, t)
+   end, Ok VNone).
+Proof. exact exit_spec. Qed.
+Print Assumptions C13_exit_spec.
+
+(* after  with sw: body [raise X]  (= __enter__(); body; __exit__(...)), for ANY body and whether or not it raised, the
+   watch is STOPPED; if the body left it running, _stopped_at is the reading taken by __exit__ (one reading); if the
+   body had stopped it, __exit__ changes nothing *)
+Theorem C13_with_block_stops : forall T (N : num T) clk body exc w0 t0,
+  let c1 := final N clk (OEnter :: body) w0 t0 in
+  let c2 := final N clk (with_block body exc) w0 t0 in
+  w_state (fst c2) = SStopped /\
+  (w_state (fst c1) = SStarted -> w_stopped (fst c2) = Some (clk (snd c1)) /\ snd c2 = S (snd c1)) /\
+  (w_state (fst c1) = SStopped -> c2 = c1).
+Proof. exact with_block_stops. Qed.
+Print Assumptions C13_with_block_stops.
+
 (* the number of clock readings each call takes *)
-Theorem C13_clock_readings : forall clk o w t, snd (fst (step clk o w t)) = (t + cost o w)%nat.
+Theorem C13_clock_readings : forall T (N : num T) clk o w t, snd (fst (step N clk o w t)) = (t + cost o w)%nat.
 Proof. exact step_cost. Qed.
 Print Assumptions C13_clock_readings.
 
 (* reachability is closed under calls: every configuration along a history is reachable *)
-Theorem C13_reachable_step : forall clk o w t,
-  reachable clk (w, t) -> reachable clk (fst (step clk o w t)).
+Theorem C13_reachable_step : forall T (N : num T) clk o w t,
+  reachable N clk (w, t) -> reachable N clk (fst (step N clk o w t)).
 Proof. exact reachable_step. Qed.
 Print Assumptions C13_reachable_step.
 
@@ -241,53 +255,270 @@ Theorem C13_state_tags_distinct : C13_STARTED <> C13_STOPPED.
 Proof. exact state_tags_distinct. Qed.
 Print Assumptions C13_state_tags_distinct.
 
-(* history-wise: _started_at is the last clock reading taken by the last (re)start of the history
-   (ops1, then the (re)start o, then ops2 without any (re)start) — the "last (re)start" of the property *)
-Theorem C13_started_at_is_last_restart : forall clk ops1 o ops2 w0 t0,
-  let c1 := final clk ops1 w0 t0 in
-  effective_restart o (fst c1) = true ->
-  let c2 := fst (step clk o (fst c1) (snd c1)) in
-  restarts_in clk ops2 (fst c2) (snd c2) = false ->
-  w_started (fst (final clk (ops1 ++ o :: ops2) w0 t0)) = Some (clk (snd c2 - 1)%nat) /\ (snd c1 < snd c2)%nat.
-Proof. exact started_at_is_last_restart. Qed.
-Print Assumptions C13_started_at_is_last_restart.
+(* ======================================================================================================= *)
+(* Part 2 — number types with sane comparisons (comp_facts) and subtraction (clock_facts)                   *)
+(* ======================================================================================================= *)
 
-(* history-wise: _stopped_at is the clock reading taken by the last stop of the history — the "stop instant" *)
-Theorem C13_stopped_at_is_last_stop : forall clk ops1 o ops2 w0 t0,
-  let c1 := final clk ops1 w0 t0 in
-  effective_stop o (fst c1) = true ->
-  let c2 := fst (step clk o (fst c1) (snd c1)) in
-  stops_in clk ops2 (fst c2) (snd c2) = false ->
-  w_stopped (fst (final clk (ops1 ++ o :: ops2) w0 t0)) = Some (clk (snd c1)).
-Proof. exact stopped_at_is_last_stop. Qed.
-Print Assumptions C13_stopped_at_is_last_stop.
+(* elapsed is never negative (0 <= e as computed, and e is comparable) *)
+Theorem C13_cf_elapsed_nonneg : forall T (N : num T) leb ok, comp_facts N leb ok ->
+  forall clk w t m c e, elapsed N clk w t m = (c, Ok e) -> leb (n_zero N) e = true /\ ok e.
+Proof. exact elapsed_nonneg. Qed.
+Print Assumptions C13_cf_elapsed_nonneg.
 
-(* ---- second instantiation: the arithmetic of the theorems above does not rest on clock readings being
-   integers.  For every ordered abelian group (T, zero, sub, leb) the source's _delta_seconds / maximum /
-   leftover / expired formulas (Model/C13_Abstract.v) satisfy: elapsed >= 0; elapsed = later - earlier for ordered
-   readings; elapsed is monotone in "now" (non-decreasing splits); elapsed(maximum) >= 0 and <= a non-negative
-   maximum; leftover >= 0; expired <-> not (elapsed <= duration); expired -> leftover = 0.
-   Z with the model's functions is one instance. ---- *)
-Require Import OV.Model.C13_Abstract OV.Proofs.C13_Abstract.
+(* elapsed(maximum) never exceeds a comparable, non-negative maximum *)
+Theorem C13_cf_elapsed_max_le : forall T (N : num T) leb ok, comp_facts N leb ok ->
+  forall clk w t m c e, elapsed N clk w t (Some m) = (c, Ok e) -> ok m -> leb (n_zero N) m = true -> leb e m = true.
+Proof. exact elapsed_max_le. Qed.
+Print Assumptions C13_cf_elapsed_max_le.
 
-Theorem C13_arithmetic_in_every_ordered_group : forall T zero sub leb,
-  ordered_group T zero sub leb ->
-  (forall a b, leb zero (g_delta T zero sub leb a b) = true) /\
-  (forall a b, leb a b = true -> g_delta T zero sub leb a b = sub b a) /\
-  (forall s a b, leb a b = true -> leb (g_delta T zero sub leb s a) (g_delta T zero sub leb s b) = true) /\
-  (forall m e, leb zero e = true -> leb zero (g_clamp_max T zero leb m e) = true) /\
-  (forall m e, leb zero m = true -> leb (g_clamp_max T zero leb (Some m) e) m = true) /\
-  (forall d e, leb zero (g_leftover T zero sub leb d e) = true) /\
-  (forall d e, g_expired T leb d e = true <-> leb e d = false) /\
-  (forall d e, leb zero d = true -> g_expired T leb d e = true -> g_leftover T zero sub leb d e = zero).
-Proof. exact abstract_arithmetic. Qed.
-Print Assumptions C13_arithmetic_in_every_ordered_group.
+Theorem C13_cf_leftover_nonneg : forall T (N : num T) leb ok, comp_facts N leb ok ->
+  forall clk w t rn c z, leftover N clk w t rn = (c, Ok (Some z)) -> leb (n_zero N) z = true /\ ok z.
+Proof. exact leftover_nonneg. Qed.
+Print Assumptions C13_cf_leftover_nonneg.
 
-Theorem C13_Z_is_an_ordered_group_instance :
-  ordered_group Z 0 Z.sub Z.leb /\
-  (forall a b, g_delta Z 0 Z.sub Z.leb a b = delta a b) /\
-  (forall m e, g_clamp_max Z 0 Z.leb m e = clamp_max m e) /\
-  (forall d e, g_leftover Z 0 Z.sub Z.leb d e = Z.max 0 (d - e)) /\
-  (forall d e, g_expired Z Z.leb d e = (e >? d)).
-Proof. exact Z_instance_summary. Qed.
-Print Assumptions C13_Z_is_an_ordered_group_instance.
+Theorem C13_cf_expired_iff : forall T (N : num T) leb ok, comp_facts N leb ok ->
+  forall clk w t d c e,
+  w_state w <> SNone -> w_duration w = Some d -> elapsed N clk w t None = (c, Ok e) ->
+  exists b, expired N clk w t = (c, Ok b) /\ b = n_gtb N e d /\ (ok d -> (b = true <-> leb e d = false)).
+Proof. exact expired_iff. Qed.
+Print Assumptions C13_cf_expired_iff.
+
+(* on a good monotone clock the splits' elapsed values never decrease *)
+Theorem C13_cf_splits_nondecreasing : forall T (N : num T) leb ok, comp_facts N leb ok ->
+  forall clk okc sub_ok, clock_facts N leb okc sub_ok ->
+  forall w t, reachable N clk (w, t) -> clock_ok okc sub_ok clk t -> monotone_upto leb clk t ->
+  StronglySorted (fun a b => leb a b = true) (map sp_elapsed (w_splits w)).
+Proof. exact splits_sorted. Qed.
+Print Assumptions C13_cf_splits_nondecreasing.
+
+(* ======================================================================================================= *)
+(* Part 3 — every totally ordered abelian group (T, zero, add, opp, le) with operations N computing in it    *)
+(* ======================================================================================================= *)
+
+Theorem C13_og_elapsed_nonneg : forall T zero add opp le (N : num T), ordered_group zero add opp le N ->
+  forall clk w t m c e, elapsed N clk w t m = (c, Ok e) -> le zero e.
+Proof. exact g_elapsed_nonneg. Qed.
+Print Assumptions C13_og_elapsed_nonneg.
+
+Theorem C13_og_history_numbers_nonneg : forall T zero add opp le (N : num T), ordered_group zero add opp le N ->
+  forall clk duration w0 ops, init N duration = Ok w0 ->
+  Forall (fun cr => forall z, snd cr = Ok (VNum z) -> le zero z) (trace N clk ops w0 0%nat).
+Proof. exact g_history_numbers_nonneg. Qed.
+Print Assumptions C13_og_history_numbers_nonneg.
+
+(* while running under a monotonic clock elapsed is exactly now - started_at *)
+Theorem C13_og_elapsed_running : forall T zero add opp le (N : num T), ordered_group zero add opp le N ->
+  forall clk w t, reachable N clk (w, t) -> w_state w = SStarted ->
+  exists s, w_started w = Some s /\
+    (forall m, elapsed N clk w t m = ((w, S t), Ok (clamp_max N m (max0 N (n_sub N (clk t) s))))) /\
+    (monotone_upto (g_leb T N) clk (S t) ->
+     le zero (n_sub N (clk t) s) /\ elapsed N clk w t None = ((w, S t), Ok (n_sub N (clk t) s))).
+Proof. exact g_elapsed_running. Qed.
+Print Assumptions C13_og_elapsed_running.
+
+(* while stopped: exactly stopped_at - started_at *)
+Theorem C13_og_elapsed_stopped : forall T zero add opp le (N : num T), ordered_group zero add opp le N ->
+  forall clk w t, reachable N clk (w, t) -> w_state w = SStopped ->
+  exists s p, w_started w = Some s /\ w_stopped w = Some p /\
+    (forall m, elapsed N clk w t m = ((w, t), Ok (clamp_max N m (max0 N (n_sub N p s))))) /\
+    (monotone_upto (g_leb T N) clk t -> le zero (n_sub N p s) /\ elapsed N clk w t None = ((w, t), Ok (n_sub N p s))).
+Proof. exact g_elapsed_stopped. Qed.
+Print Assumptions C13_og_elapsed_stopped.
+
+Theorem C13_og_elapsed_max : forall T zero add opp le (N : num T), ordered_group zero add opp le N ->
+  forall clk w t m c e, elapsed N clk w t (Some m) = (c, Ok e) ->
+  exists e0, elapsed N clk w t None = (c, Ok e0) /\
+             e = (if g_leb T N e0 m then e0 else max0 N m) /\ le e (max0 N m) /\ (le zero m -> le e m).
+Proof. exact g_elapsed_max. Qed.
+Print Assumptions C13_og_elapsed_max.
+
+Theorem C13_og_expired_iff : forall T zero add opp le (N : num T), ordered_group zero add opp le N ->
+  forall clk w t d c e,
+  w_state w <> SNone -> w_duration w = Some d -> elapsed N clk w t None = (c, Ok e) ->
+  exists b, expired N clk w t = (c, Ok b) /\ (b = true <-> ~ le e d).
+Proof. exact g_expired_iff. Qed.
+Print Assumptions C13_og_expired_iff.
+
+Theorem C13_og_leftover_nonneg : forall T zero add opp le (N : num T), ordered_group zero add opp le N ->
+  forall clk w t rn c z, leftover N clk w t rn = (c, Ok (Some z)) -> le zero z.
+Proof. exact g_leftover_nonneg. Qed.
+Print Assumptions C13_og_leftover_nonneg.
+
+(* under a monotonic clock: non-decreasing elapsed values, lengths = successive differences (the first from zero) *)
+Theorem C13_og_splits_nondecreasing_lengths_are_differences : forall T zero add opp le (N : num T),
+  ordered_group zero add opp le N ->
+  forall clk w t, reachable N clk (w, t) -> monotone_upto (g_leb T N) clk t ->
+  StronglySorted le (map sp_elapsed (w_splits w)) /\ diffs_from N zero (w_splits w).
+Proof. exact g_splits_monotone. Qed.
+Print Assumptions C13_og_splits_nondecreasing_lengths_are_differences.
+
+(* ======================================================================================================= *)
+(* Part 4 — T := Z: corollaries of Part 3 in Z notation                                                     *)
+(* ======================================================================================================= *)
+Open Scope Z_scope.
+
+Theorem C13_Z_is_an_ordered_group : ordered_group 0 Z.add Z.opp Z.le Znum.
+Proof. exact Z_ordered_group. Qed.
+Print Assumptions C13_Z_is_an_ordered_group.
+
+(* elapsed time is never negative — any watch, any clock (also one that runs backwards), any maximum *)
+Theorem C13_elapsed_nonneg : forall clk w t maximum c e,
+  elapsed Znum clk w t maximum = (c, Ok e) -> 0 <= e.
+Proof. exact Z_elapsed_nonneg. Qed.
+Print Assumptions C13_elapsed_nonneg.
+
+(* every number returned by any call (elapsed, leftover) of any history is non-negative *)
+Theorem C13_history_numbers_nonneg : forall clk duration w0 ops,
+  init Znum duration = Ok w0 ->
+  Forall (fun cr => forall z, snd cr = Ok (VNum z) -> 0 <= z) (trace Znum clk ops w0 0%nat).
+Proof. exact Z_history_numbers_nonneg. Qed.
+Print Assumptions C13_history_numbers_nonneg.
+
+(* while running, elapsed reads the clock once and returns the distance from _started_at to that
+   reading, clamped at 0 and at the maximum; under a monotonic clock it is exactly now - started_at.
+   (_started_at is the reading taken by the last (re)start: C13_started_at_is_last_restart) *)
+Theorem C13_elapsed_running : forall clk w t,
+  reachable Znum clk (w, t) -> w_state w = SStarted ->
+  exists s, w_started w = Some s /\
+    (forall m, elapsed Znum clk w t m = ((w, S t), Ok (clamp_max Znum m (Z.max 0 (clk t - s))))) /\
+    (monotone_uptob Z.leb clk (S t) = true -> 0 <= clk t - s /\ elapsed Znum clk w t None = ((w, S t), Ok (clk t - s))).
+Proof. exact Z_elapsed_running. Qed.
+Print Assumptions C13_elapsed_running.
+
+(* while stopped, elapsed does not read the clock and returns the distance from _started_at to the
+   stop instant _stopped_at (the reading taken by the stop: C13_stopped_at_is_last_stop) *)
+Theorem C13_elapsed_stopped : forall clk w t,
+  reachable Znum clk (w, t) -> w_state w = SStopped ->
+  exists s p, w_started w = Some s /\ w_stopped w = Some p /\
+    (forall m, elapsed Znum clk w t m = ((w, t), Ok (clamp_max Znum m (Z.max 0 (p - s))))) /\
+    (monotone_uptob Z.leb clk t = true -> 0 <= p - s /\ elapsed Znum clk w t None = ((w, t), Ok (p - s))).
+Proof. exact Z_elapsed_stopped. Qed.
+Print Assumptions C13_elapsed_stopped.
+
+(* elapsed(maximum) is elapsed() cut at the maximum: it never exceeds a non-negative maximum
+   (a negative maximum is answered by 0: ex_negative_maximum) *)
+Theorem C13_elapsed_max : forall clk w t m c e,
+  elapsed Znum clk w t (Some m) = (c, Ok e) ->
+  exists e0, elapsed Znum clk w t None = (c, Ok e0) /\
+             e = (if e0 <=? m then e0 else Z.max 0 m) /\ e <= Z.max 0 m /\ (0 <= m -> e <= m).
+Proof. exact Z_elapsed_max. Qed.
+Print Assumptions C13_elapsed_max.
+
+(* ... and the literal statement for EVERY maximum is false (zone: maximum < 0, where it contradicts
+   C13_elapsed_nonneg; the implementation answers 0) *)
+Theorem C13_elapsed_max_literal_refuted : ~ C13_elapsed_max_full_statement.
+Proof. exact elapsed_max_literal_refuted. Qed.
+Print Assumptions C13_elapsed_max_literal_refuted.
+
+Theorem C13_leftover_spec : forall clk w t return_none,
+  w_state w = SStarted ->
+  match w_duration w with
+  | Some d => forall c e, elapsed Znum clk w t None = (c, Ok e) ->
+                          leftover Znum clk w t return_none = (c, Ok (Some (Z.max 0 (d - e))))
+  | None => leftover Znum clk w t return_none = ((w, t), if return_none then Ok None else Exn RuntimeError)
+  end.
+Proof. exact Z_leftover_spec. Qed.
+Print Assumptions C13_leftover_spec.
+
+Theorem C13_expired_spec : forall clk w t,
+  w_state w <> SNone ->
+  match w_duration w with
+  | Some d => forall c e, elapsed Znum clk w t None = (c, Ok e) ->
+                          exists b, expired Znum clk w t = (c, Ok b) /\ (b = true <-> e > d)
+  | None => expired Znum clk w t = ((w, t), Ok false)
+  end.
+Proof. exact Z_expired_spec. Qed.
+Print Assumptions C13_expired_spec.
+
+Theorem C13_split_records : forall clk w t c sp,
+  split_ Znum clk w t = (c, Ok sp) ->
+  exists e, elapsed Znum clk w t None = ((w, snd c), Ok e) /\ sp_elapsed sp = e /\
+            sp_length sp = match last_opt (w_splits w) with
+                           | Some l => Z.max 0 (e - sp_elapsed l) | None => e end /\
+            fst c = set_splits w (w_splits w ++ [sp]).
+Proof. exact Z_split_records. Qed.
+Print Assumptions C13_split_records.
+
+(* under a monotonic clock the splits of every reachable watch have non-decreasing elapsed values and
+   lengths equal to the successive differences (the first one counted from 0) *)
+Theorem C13_splits_nondecreasing_lengths_are_differences : forall clk w t,
+  reachable Znum clk (w, t) -> monotone_uptob Z.leb clk t = true ->
+  StronglySorted Z.le (map sp_elapsed (w_splits w)) /\ Zdiffs_from 0 (w_splits w).
+Proof. exact Z_splits_monotone. Qed.
+Print Assumptions C13_splits_nondecreasing_lengths_are_differences.
+
+(* on any clock (also a backwards one) the lengths are the clamped differences and nothing is negative *)
+Theorem C13_splits_any_clock : forall clk w t,
+  reachable Znum clk (w, t) ->
+  clamped_diffs_from Znum None (w_splits w) /\ Forall (fun x => 0 <= sp_elapsed x /\ 0 <= sp_length x) (w_splits w).
+Proof. exact Z_splits_clamped. Qed.
+Print Assumptions C13_splits_any_clock.
+
+(* ======================================================================================================= *)
+(* Part 5 — T := binary64.  What the code computes on a real float clock is Part 1 at N := Fnum:
+     elapsed  = max(0.0, now (-) started_at) cut at the maximum,   (-) = IEEE round-to-nearest-even subtraction
+     leftover = max(0.0, duration (-) elapsed),  expired = elapsed > duration,  split length = max(0.0, e_k (-) e_k-1)
+   so "equals the clock distance" and "lengths are the successive differences" hold with the float subtraction
+   in place of the exact one (exf_running: 0.4 (-) 0.1 = 0.30000000000000004).  The order clauses hold as such: *)
+(* ======================================================================================================= *)
+
+Theorem C13_float_comp_facts : comp_facts Fnum f_leb f_ok.
+Proof. exact float_comp_facts. Qed.
+Print Assumptions C13_float_comp_facts.
+
+(* valid finite doubles whose differences do not overflow: <= is transitive, (-) is monotone in its first argument,
+   b (-) a >= 0 for a <= b *)
+Theorem C13_float_clock_facts : clock_facts Fnum f_leb f_okc f_sub_ok.
+Proof. exact float_clock_facts. Qed.
+Print Assumptions C13_float_clock_facts.
+
+(* never negative, never NaN — for ANY readings (even infinite / NaN), any maximum *)
+Theorem C13_float_elapsed_nonneg : forall clk w t m c e,
+  elapsed Fnum clk w t m = (c, Ok e) -> f_leb f_zero e = true /\ f_is_nan e = false /\ f_ltb e f_zero = false.
+Proof. exact F_elapsed_nonneg. Qed.
+Print Assumptions C13_float_elapsed_nonneg.
+
+Theorem C13_float_history_numbers_nonneg : forall clk duration w0 ops,
+  init Fnum duration = Ok w0 ->
+  Forall (fun cr => forall z, snd cr = Ok (VNum z) -> f_leb f_zero z = true /\ f_is_nan z = false) (trace Fnum clk ops w0 0%nat).
+Proof. exact F_history_numbers_nonneg. Qed.
+Print Assumptions C13_float_history_numbers_nonneg.
+
+Theorem C13_float_elapsed_max_le : forall clk w t m c e,
+  elapsed Fnum clk w t (Some m) = (c, Ok e) -> f_is_nan m = false -> f_leb f_zero m = true -> f_leb e m = true.
+Proof. exact F_elapsed_max_le. Qed.
+Print Assumptions C13_float_elapsed_max_le.
+
+Theorem C13_float_leftover_nonneg : forall clk w t rn c z,
+  leftover Fnum clk w t rn = (c, Ok (Some z)) -> f_leb f_zero z = true /\ f_is_nan z = false.
+Proof. exact F_leftover_nonneg. Qed.
+Print Assumptions C13_float_leftover_nonneg.
+
+Theorem C13_float_expired_iff : forall clk w t d c e,
+  w_state w <> SNone -> w_duration w = Some d -> elapsed Fnum clk w t None = (c, Ok e) ->
+  exists b, expired Fnum clk w t = (c, Ok b) /\ b = f_gtb e d /\ (f_is_nan d = false -> (b = true <-> f_leb e d = false)).
+Proof. exact F_expired_iff. Qed.
+Print Assumptions C13_float_expired_iff.
+
+Theorem C13_float_elapsed_running : forall clk w t,
+  reachable Fnum clk (w, t) -> w_state w = SStarted ->
+  exists s, w_started w = Some s /\
+    (forall m, elapsed Fnum clk w t m = ((w, S t), Ok (clamp_max Fnum m (max0 Fnum (f_sub (clk t) s))))) /\
+    (f_clock_okb clk (S t) = true -> monotone_uptob f_leb clk (S t) = true -> f_leb f_zero (f_sub (clk t) s) = true).
+Proof. exact F_elapsed_running. Qed.
+Print Assumptions C13_float_elapsed_running.
+
+Theorem C13_float_elapsed_stopped : forall clk w t,
+  reachable Fnum clk (w, t) -> w_state w = SStopped ->
+  exists s p, w_started w = Some s /\ w_stopped w = Some p /\
+    (forall m, elapsed Fnum clk w t m = ((w, t), Ok (clamp_max Fnum m (max0 Fnum (f_sub p s))))) /\
+    (f_clock_okb clk t = true -> monotone_uptob f_leb clk t = true -> f_leb f_zero (f_sub p s) = true).
+Proof. exact F_elapsed_stopped. Qed.
+Print Assumptions C13_float_elapsed_stopped.
+
+(* monotone float clock => split elapsed values never decrease *)
+Theorem C13_float_splits_nondecreasing : forall clk w t,
+  reachable Fnum clk (w, t) -> f_clock_okb clk t = true -> monotone_uptob f_leb clk t = true ->
+  StronglySorted (fun a b => f_leb a b = true) (map sp_elapsed (w_splits w)).
+Proof. exact F_splits_sorted. Qed.
+Print Assumptions C13_float_splits_nondecreasing.
